@@ -91,6 +91,21 @@ class Universe:
                 self.world.accept("q29", q)
                 self.labels["q29"] = "q29"
                 self.pool_history = [("q29", 1)]
+        # a pending payment that only makes sense on the t-branch (t28 - t29 - t30, abandoned for t28 - r29 - r30 - r31): it spends a
+        # coin c that is unspent at t30 AND at r31 together with a coin d that was created in t29/t30
+        self.pool_stale = None
+        t30u, t28u, r31u = self.node("t30").utxo, self.node("t28").utxo, self.node("r31").utxo
+        mine = lambda o: o[0] >= 1 and any(k.pub == o[1] for k in KEYS)
+        both = [x for x in both if x[0] in t30u]
+        only_t = sorted((r_, o) for r_, o in t30u.items() if r_ not in t28u and r_ not in r31u and mine(o))
+        if len(both) >= 2 and only_t:
+            (rc, oc), (rd, od) = both[1], only_t[0]
+            t2 = R.RTx([(rc[0], rc[1], ("se",)), (rd[0], rd[1], ("se",))], [(oc[0] + od[0] - 1, KEYS[6].pub)])
+            msg = R.signing_message(t2)
+            t2.ins = [(r_[0], r_[1], ("sig", next(k for k in KEYS if k.pub == o_[1]).sign(msg))) for r_, o_ in ((rc, oc), (rd, od))]
+            t3 = R.RTx([(rc[0], rc[1], ("se",))], [(oc[0] - 1, KEYS[3].pub)])
+            t3.ins = [(rc[0], rc[1], ("sig", next(k for k in KEYS if k.pub == oc[1]).sign(R.signing_message(t3))))]
+            self.pool_stale = (t2.touch(), t3.touch())
         self.sk = {}
 
     def blk(self, name):
@@ -203,6 +218,14 @@ class Sim:
             if n.cm.transaction_pool:
                 raise env.HarnessError("pool-history transaction not evicted by the block that mines it")
             self.stats_pool_history = 1
+        if case.get("pool_stale"):
+            # one node holds a PENDING payment that is valid on its own branch only; the network converges on the other branch
+            # (downloaded block by block), where one of its inputs does not exist.  Afterwards that node must take part in
+            # the relay of a payment that spends the other input.
+            n = self.nodes[case["pool_stale"]["node"]]
+            if not n.cm.add_transaction_to_pool(u.b.to_sk_tx(u.pool_stale[0])):
+                raise env.HarnessError("pool-stale transaction refused on its own branch")
+            self.stats_pool_stale = 1
         self.init_heights = [n.cm.coinstate.head().height for n in self.nodes]
         self.want_h = max(self.init_heights)
         self.stats = {"fair_rounds": 0, "events": 0}
@@ -447,6 +470,11 @@ class Sim:
             if all((h_, i_) in hnode.utxo for (h_, i_, _s) in t0.ins):
                 tx = t0                       # the very transaction one node once pooled and dropped: valid again at the common head
                 self.stats["relay_of_a_once_pooled_transaction"] = 1
+        elif case.get("pool_stale"):
+            t3 = u.pool_stale[1]
+            if all((h_, i_) in hnode.utxo for (h_, i_, _s) in t3.ins):
+                tx = t3
+                self.stats["relay_past_a_node_that_held_a_payment_of_the_abandoned_branch"] = 1
         elif cand:
             ref, o = cand[case["relay"]["tx_pick"] % len(cand)]
             k = next(k for k in KEYS if k.pub == o[1])
@@ -521,6 +549,13 @@ def gen_case(rnd, u):
                 "n_events": rnd.choice([0, 50, 300]), "clock_off": rnd.choice([0, 7, 59]), "started_ago": rnd.choice([0, 30, 10_000]),
                 "relay": {"block_from": 0, "tx_from": 0, "tx_pick": 0, "n_events": rnd.choice([0, 100])},
                 "pool_history": {"node": 1, "block": name, "tx": ti}, "family": "pool_history"}
+    if rnd.random() < 0.1 and u.pool_stale:
+        # line A - B - C; B holds a pending payment of the t-branch; everybody ends on the r-branch
+        return {"tips": [["r31"], ["t30"], [rnd.choice(["t12", "t20", "t28", "r29"])]], "topo": [[0, 1], [2, 1]], "blocked": [[0, 2], [2, 0]],
+                "batch": rnd.choice([500, 4]), "sched_seed": rnd.randrange(1 << 30), "discipline": rnd.choice(["uniform", "priority", "run_to_completion"]),
+                "n_events": rnd.choice([0, 50, 300]), "clock_off": rnd.choice([0, 7, 59]), "started_ago": rnd.choice([0, 30, 10_000]),
+                "relay": {"block_from": 0, "tx_from": 0, "tx_pick": 0, "n_events": rnd.choice([0, 100])},
+                "pool_stale": {"node": 1}, "family": "pool_stale"}
     if rnd.random() < 0.07:
         tips[rnd.randrange(n)] = ["x33"]            # one node holds the branch with the maximum-size block (a 200,000-byte message)
     topo = rnd.choice(TOPOS2 if n == 2 else TOPOS3)
